@@ -274,6 +274,8 @@ def run(chk):
     who_may_write(chk, prog)
     check_links(chk, prog, sim)
     check_reads(chk, prog, sim)
+    import selftest
+    selftest.expect(chk, "C09", who_may_write, "C09.R1", "a free function storing Terminal's partner link", "writer:rogue_link")
     chk.assume("matching invariant (symmetric, at most one partner) holds before each operation: established inductively by R2 from the constructor, R1 shows no other writer",
                "four cells suffice: connect/disconnect dereference only their arguments and those arguments' partners")
     chk.extra["std_models"] = sorted(sim.stats["models_used"])
